@@ -30,7 +30,8 @@ type sGrant struct {
 
 type Snap struct {
 	Height, Time int64
-	Bal          map[string]*big.Int // by address, for users + custody accounts
+	Bal          map[string]*big.Int // by address, for users + subaccounts
+	SubOwner     map[string]string   // subaccount address -> owner
 	Pool, BetFee, HouseFee *big.Int
 	Markets  map[string]markettypes.Market
 	Books    map[string]obtypes.OrderBook
@@ -62,6 +63,11 @@ func (c *Chain) Snapshot() *Snap {
 		BetByID: map[uint64]*sBet{}, Pending: map[[2]string]int{}, Settled: map[[2]int64]int{}, UID2ID: map[string]uint64{}}
 	for _, a := range c.Acc {
 		s.Bal[a.Addr.String()] = c.Bal(a.Addr).BigInt()
+	}
+	s.SubOwner = map[string]string{}
+	for _, sa := range c.App.SubaccountKeeper.GetAllSubaccounts(ctx) {
+		s.Bal[sa.Address] = c.Bal(sdk.MustAccAddressFromBech32(sa.Address)).BigInt()
+		s.SubOwner[sa.Address] = sa.Owner
 	}
 	s.Pool = c.Bal(c.ModAddr(obtypes.OrderBookLiquidityFunder{}.GetModuleAcc())).BigInt()
 	s.BetFee = c.Bal(c.ModAddr(bettypes.BetFeeCollectorFunder{}.GetModuleAcc())).BigInt()
